@@ -20,7 +20,10 @@ RULE = ('tables of 0..N rows for Interval, Bed6, Bed12, BedGraph, NarrowPeak, SA
         'then sliced / masked / re-ordered and np.concatenate\'d (calls with concat=true write the concatenation in one write) '
         'before being written; identifier columns empty in every row; int columns also held as int8/16/32/64 and uint8/16/32/64 '
         'arrays and float columns as float32, with values at both limits of the dtype, 0 and -1 (case field dtypes); SAM cases with a '
-        'tag-less row also read the old trailing-TAB spelling; after the writes the table handed to write() must be unchanged')
+        'tag-less row also read the old trailing-TAB spelling; after the writes the table handed to write() must be unchanged; '
+        'BIG tables (case field big): a base block of 1..7 generated rows tiled to 4097..131073 rows (quick; thorough 2^k-1, 2^k, 2^k+1 for '
+        'k = 8..17, 10^4+-1, 10^5+-1, 3*2^16+1, 2^18+1) handed to ONE write call / stream chunk, alone, after a small piece, in append mode, to gzip, '
+        'for every in-memory format; file bytes and read-back table observed in lossless run-length form and decided segment-wise in Coq (Corr/C03T.v)')
 EXHAUSTIVE = {'quick': False, 'thorough': False}
 TIE = ('translator+correspondence: 44 definitions regenerated from /repo (translate/gen_c03.py -> Gen/C03.v) bridged to the named '
        'helpers of Model/C03.v (Bridge/C03.v, theorem C03_source_tie); Model.C03.run_hist evaluated in Coq on the same history, '
@@ -53,6 +56,7 @@ PARTIAL = ['C03_int_text_partial / C03_fasta_partial / C03_write_pieces_partial 
            'without LF; VCF: first cell not starting with "#")',
            'C03_model_ok_spec_ok*: float-free tables (spec_ok itself compares floats to 1e-12; no theorem about str_to_float)']
 PER_FILE = 40
+COQ_CORR = 'C03T'      # Corr/C03T.v: case = Plain (Corr/C03.v case) | Big (run-length case for big tables)
 
 # column kinds: D identifier (SequenceID), S text, I int, L int list, F float, Q qualities, R rest of line
 KINDS = {
@@ -472,6 +476,7 @@ def generate(tier, seed):
                     rows = [[names[j], vals[j], vals[(j + 1) % n]] for j in range(n)]
                     for sizes in compositions(n):
                         cases.append(_mk('bed3', rows, _hist('calls', sizes, rng)))
+    cases += _gen_big(thorough, rng, g)
     return cases
 
 
@@ -509,6 +514,8 @@ def _ser_reference(case, rows):
 
 
 def observe(case):
+    if case.get('big'):
+        return _observe_big(case)
     import dataclasses
     import numpy as np
     import bionumpy as bnp
@@ -766,6 +773,12 @@ KCODE = {'S': 0, 'I': 1, 'L': 2, 'F': 3, 'Q': 4, 'R': 5, 'D': 6}
 
 
 def to_coq(case, o):
+    if case.get('big'):
+        return _to_coq_big(case, o)
+    return '(Plain %s)' % _to_coq_plain(case, o)
+
+
+def _to_coq_plain(case, o):
     kinds = KINDS[case['fmt']]
     sess = []
     for s, cs in zip(case['hist'], _rows_for_session(case)):
@@ -810,6 +823,8 @@ def _edge_int(case):
 
 
 def nontrivial(case, o):
+    if case.get('big'):
+        return True
     rows = case['rows']
     kinds = KINDS[case['fmt']]
     if _edge_int(case):
@@ -825,6 +840,8 @@ def nontrivial(case, o):
 
 
 def describe(case, o):
+    if case.get('big'):
+        return _describe_big(case, o)
     return dict(fmt=case['fmt'], variant=case['variant'], gz=case['gz'], width=case['width'], alphabet=case['alpha'],
                 rows=case['rows'][:3], n_rows=len(case['rows']), history=case['hist'], err=o.get('errtype') or 0,
                 written=bytes.fromhex(o.get('written', ''))[:200].decode('latin1'), read_ok=o.get('read_ok'),
@@ -842,6 +859,8 @@ def distribution(cases, obs):
         def inc(m, k):
             m[str(k)] = m.get(str(k), 0) + 1
         inc(d['fmt'], c['fmt'])
+        if c.get('big'):
+            inc(d.setdefault('big_call_rows', {}), max(_big_call_sizes(c)))
         if c['variant']:
             inc(d['variant'], c['variant'])
         inc(d['rows'], min(len(c['rows']), 8))
@@ -1048,6 +1067,8 @@ ACTIVE = set()      # no recorded defect is left at /repo HEAD: every violation 
 
 
 def finding(case, o):
+    if case.get('big'):
+        return None
     T = _explaining_set(case, o)
     if T and set(T) <= ACTIVE:
         return T[0]
@@ -1055,8 +1076,254 @@ def finding(case, o):
 
 
 def signature(case, o):
+    if case.get('big'):
+        return 'big/%s/%s/err%d/read%s' % (case['fmt'], case['variant'], o.get('err', -1), o.get('read_ok'))
     T = _explaining_set(case, o)
     if T:
         return '+'.join(T)
     return '%s/%s/err%d/read%s/%s' % (case['fmt'], case['variant'], o.get('err', -1), o.get('read_ok'),
                                     'gz' if case['gz'] else '')
+
+
+# ----------------------------------------------------------------------------- BIG tables (round 6)
+# The SIZE of one write call is part of the property's quantifier ("tables of 0..N rows").  Code on the write route may
+# switch algorithm with the number of rows (block-wise formatting, buffering, dtype of offsets), so tables whose row
+# count straddles powers of two / ten are written in one call, as a stream chunk, after a small piece, in append mode and
+# to gzip.  A big table is a small base block of p rows tiled (plus a partial block), so that the case, the file and the
+# table read back all have an exact run-length form; Coq decides the property on that form (Corr/C03T.v).
+BIG_SIZES_QUICK = [4097, 32769, 65535, 65536, 65537, 100001, 131073]
+BIG_SIZES_THOROUGH = sorted(set([2 ** k + d for k in range(8, 18) for d in (-1, 0, 1)] + [9999, 10001, 99999, 100001,
+                                                                                          3 * 2 ** 16 + 1, 2 ** 18 + 1]))
+BIG_FMTS = [('vcf', 'str'), ('vcf', 'union'), ('bed3', ''), ('bed6', ''), ('bdg', ''), ('narrowpeak', ''), ('gtf', ''),
+            ('sam', ''), ('bed12', ''), ('fasta', ''), ('fastq', '')]
+BIG_HKINDS = ['one', 'one-gz', 'small+a', 'stream', 'calls', 'a-gz', 'two-big']
+
+
+def _big_hist(hk, segs_big, segs_small):
+    def call(chunks, stream=False):
+        return dict(stream=stream, chunks=chunks)
+    if hk in ('one', 'one-gz'):
+        return [dict(append=False, calls=[call([segs_big])])]
+    if hk in ('small+a', 'a-gz'):
+        return [dict(append=False, calls=[call([segs_small])]), dict(append=True, calls=[call([segs_big])])]
+    if hk == 'stream':
+        return [dict(append=False, calls=[call([segs_small, segs_big, [], segs_small], True)])]
+    if hk == 'calls':
+        return [dict(append=False, calls=[call([segs_big]), call([segs_small])])]
+    if hk == 'two-big':
+        return [dict(append=False, calls=[call([segs_big]), call([segs_big])])]
+    raise ValueError(hk)
+
+
+def _tile_segs(base, n):
+    p = len(base)
+    segs = []
+    if n // p:
+        segs.append([base, n // p])
+    if n % p:
+        segs.append([base[:n % p], 1])
+    return segs
+
+
+def _gen_big(thorough, rng, g):
+    cases = []
+    sizes = BIG_SIZES_THOROUGH if thorough else BIG_SIZES_QUICK
+    k = 0
+    for fi, (fmt, variant) in enumerate(BIG_FMTS):
+        heavy = fmt in ('fasta', 'fastq', 'bed12', 'sam', 'narrowpeak', 'gtf')
+        if thorough:
+            mine = [n for n in sizes if not heavy or n <= 2 ** 16 + 1]
+        elif fmt == 'vcf':
+            mine = sizes
+        else:       # every format meets the 2^16 boundary from above; the other sizes rotate
+            mine = sorted(set([65537, sizes[fi % len(sizes)], 65536 if fi % 2 else 131073 if not heavy else 32769]))
+        for n in mine:
+            hk = BIG_HKINDS[k % len(BIG_HKINDS)]
+            k += 1
+            width = rng.choice([80, 80, 3, 7]) if fmt == 'fasta' else 80
+            p = rng.choice([1, 2, 3, 5, 7])
+            base = [g.row(fmt, 'ascii', width) for _ in range(p)]
+            if fmt in ('fasta', 'fastq'):       # keep the records short: the point is the number of rows
+                for r in base:
+                    L = rng.choice([0, 1, width - 1, width, width + 1]) if fmt == 'fasta' else rng.choice([1, 2, 5])
+                    r[1] = g.seq(L, 'ascii')
+                    if fmt == 'fastq':
+                        r[2] = [rng.choice([0, 30, 41, 93]) for _ in range(L)]
+            small = [g.row(fmt, 'ascii', width) for _ in range(rng.choice([1, 2]))]
+            if fmt == 'fastq':
+                for r in small:
+                    r[1], r[2] = r[1][:3] or 'A', (r[2][:3] or [1])[:len(r[1][:3] or 'A')]
+                    r[2] = (r[2] + [7, 7, 7])[:len(r[1])]
+            c = _mk(fmt, [], [], gz=hk.endswith('gz'), variant=variant, width=width)
+            c['big'] = True
+            c['bhist'] = _big_hist(hk, _tile_segs(base, n), [[small, 1]])
+            cases.append(c)
+    return cases
+
+
+def _big_call_sizes(case):
+    return [sum(len(b) * max(n, 0) for b, n in ch) for s in case['bhist'] for c in s['calls'] for ch in c['chunks']] or [0]
+
+
+def _row_lines(case, r):
+    if case['fmt'] == 'fasta':
+        w = case['width']
+        return 1 + (len(r[1]) + w - 1) // w
+    if case['fmt'] == 'fastq':
+        return 4
+    return 1
+
+
+def _rle_compress(items, hints):
+    """lossless run-length form of a list: [[block, count], ...].  hints = [(period, count), ...]: the segmentation the
+    table has; as long as the items follow it the segments are aligned with it, afterwards greedy by the hinted periods."""
+    out, pos, n = [], 0, len(items)
+    for p, cnt in hints:
+        if p <= 0 or cnt <= 0:
+            continue
+        blk = items[pos:pos + p]
+        if len(blk) == p and pos + p * cnt <= n and items[pos:pos + p * cnt] == blk * cnt:
+            out.append([blk, cnt])
+            pos += p * cnt
+        else:
+            break
+    periods = sorted({p for p, _ in hints if p > 0} | {1}, reverse=True)
+    lit = []
+    while pos < n:
+        best = None
+        for p in periods:
+            blk = items[pos:pos + p]
+            if len(blk) < p:
+                continue
+            r = 1
+            while items[pos + r * p:pos + (r + 1) * p] == blk:
+                r += 1
+            if r >= 2 and (best is None or p * r > best[0] * best[1]):
+                best = (p, r)
+        if best:
+            if lit:
+                out.append([lit, 1])
+                lit = []
+            out.append([items[pos:pos + best[0]], best[1]])
+            pos += best[0] * best[1]
+        else:
+            lit.append(items[pos])
+            pos += 1
+    if lit:
+        out.append([lit, 1])
+    assert [x for b, c in out for x in b * c] == items
+    return out
+
+
+def _observe_big(case):
+    import numpy as np
+    import bionumpy as bnp
+    from bionumpy import datatypes as dt
+    from bionumpy.io import delimited_buffers as db
+    from bionumpy.io.multiline_buffer import MultiLineFastaBuffer
+    from bionumpy.streams import NpDataclassStream
+    fmt, variant = case['fmt'], case['variant']
+    kinds = KINDS[fmt]
+    d = tempfile.mkdtemp(prefix='c03b_')
+    try:
+        cls = {'bed3': dt.Interval, 'bed6': dt.Bed6, 'bed12': dt.Bed12, 'bdg': dt.BedGraph, 'narrowpeak': dt.NarrowPeak,
+               'sam': dt.SAMEntry, 'gtf': dt.GTFEntry, 'vcf': dt.VCFWithInfoAsStringEntry, 'fasta': dt.SequenceEntry,
+               'fastq': dt.SequenceEntryWithQuality}[fmt]
+        if fmt == 'vcf' and variant == 'union':
+            cls = dt.VCFEntry
+        wbt = rbt = None
+        if fmt == 'bed6':
+            rbt = db.Bed6Buffer
+        if fmt == 'bed12':
+            rbt = db.Bed12Buffer
+        if fmt == 'fasta' and case['width'] != 80:
+            class Narrow(MultiLineFastaBuffer):
+                n_characters_per_line = case['width']
+            wbt = Narrow
+
+        def table(rs):
+            if fmt == 'fastq':
+                return cls.from_entry_tuples([(r[0], r[1], ''.join(chr(q + 33) for q in r[2])) for r in rs])
+            return cls.from_entry_tuples([tuple(r) for r in rs])
+        all_rows = [r for s in case['bhist'] for c in s['calls'] for ch in c['chunks'] for b, n in ch for r in b]
+        empty = table(all_rows[:1])[:0]
+
+        def chunk_table(segs):
+            parts = [table(b)[np.tile(np.arange(len(b)), n)] for b, n in segs if b and n > 0]
+            if not parts:
+                return empty
+            return parts[0] if len(parts) == 1 else np.concatenate(parts)
+        path = os.path.join(d, 'out' + SUFFIX[fmt] + ('.gz' if case['gz'] else ''))
+        err, errtype = 0, ''
+        try:
+            for s in case['bhist']:
+                with bnp.open(path, 'a' if s['append'] else 'w', buffer_type=wbt) as f:
+                    for c in s['calls']:
+                        tabs = [chunk_table(ch) for ch in c['chunks']]
+                        for t, ch in zip(tabs, c['chunks']):
+                            assert len(t) == sum(len(b) * n for b, n in ch if n > 0), 'harness: wrong table size'
+                        if c['stream']:
+                            f.write(NpDataclassStream(iter(tabs)))
+                        else:
+                            f.write(tabs[0])
+        except Exception as e:
+            errtype = type(e).__name__
+            err = {'AssertionError': 1, 'KeyError': 2}.get(errtype, 9)
+            errtype += ': ' + str(e)[:120]
+        if os.path.exists(path):
+            raw = open(path, 'rb').read()
+            try:
+                written = gzip.decompress(raw) if case['gz'] and raw else raw
+            except Exception:
+                written = b'\xff' + raw[:50]
+        else:
+            written = b''
+        segs = [(b, n) for s in case['bhist'] for c in s['calls'] for ch in c['chunks'] for b, n in ch if b and n > 0]
+        lines = written.split(b'\n')
+        lines = [x + b'\n' for x in lines[:-1]] + ([lines[-1]] if lines[-1] else [])
+        hints = [(sum(_row_lines(case, r) for r in b), n) for b, n in segs]
+        hdr = _header(case)
+        if hdr and written.startswith(hdr):
+            hints = [(hdr.count(b'\n'), 1)] + hints
+        wr = _rle_compress(lines, hints)
+        out = dict(err=err, errtype=errtype, n_bytes=len(written), written_rle=[[b''.join(b).hex(), n] for b, n in wr],
+                   head=written[:160].decode('latin1'), read_ok=False, read_rle=[], read_err='', n_read=0)
+        assert b''.join(bytes.fromhex(h) * n for h, n in out['written_rle']) == written
+        if err == 0:
+            try:
+                r = bnp.open(path, buffer_type=rbt).read()
+                rows = _table_rows(r, cls, kinds)
+                out['n_read'] = len(rows)
+                out['read_rle'] = _rle_compress(rows, [(len(b), n) for b, n in segs])
+                out['read_ok'] = True
+            except Exception as e:
+                out['read_err'] = '%s: %s' % (type(e).__name__, str(e)[:160])
+        return out
+    finally:
+        shutil.rmtree(d, ignore_errors=True)
+
+
+def _to_coq_big(case, o):
+    kinds = KINDS[case['fmt']]
+
+    def rle_rows(segs, read):
+        return clist(['(%s, %s)' % (clist([_row(kinds, r, read) for r in b], 'row'), cz(n)) for b, n in segs], '(list row * Z)')
+    sess = []
+    for s in case['bhist']:
+        calls = ['{| bc_stream := %s; bc_chunks := %s |}' % (cbool(c['stream']), clist([rle_rows(ch, False) for ch in c['chunks']], '(rle row)'))
+                 for c in s['calls']]
+        sess.append('{| bs_append := %s; bs_calls := %s |}' % (cbool(s['append']), clist(calls, 'bcall')))
+    written = clist(['(%s, %s)' % (hx(bytes.fromhex(h)), cz(n)) for h, n in o['written_rle']], '(list Z * Z)')
+    return ('(Big {| b_fmt := %s; b_schema := %s; b_header := %s; b_gz := %s; b_hist := %s; b_err := %s; b_written := %s; '
+            'b_read_ok := %s; b_read := %s |})' % (
+                _fmt_term(case), zl([KCODE[k] for k in kinds]), hx(_header(case)), cbool(case['gz']), clist(sess, 'bsession'),
+                cz(o['err']), written, cbool(o['read_ok']), rle_rows(o['read_rle'], True) if o['read_ok'] else '(@nil (list row * Z))'))
+
+
+def _describe_big(case, o):
+    return dict(fmt=case['fmt'], variant=case['variant'], gz=case['gz'], width=case['width'], big=True,
+                history=[dict(append=s['append'], calls=[dict(stream=c['stream'], chunks=[[[b[:3], n] for b, n in ch] for ch in c['chunks']])
+                                                         for c in s['calls']]) for s in case['bhist']],
+                rows_per_call=_big_call_sizes(case), err=o.get('errtype') or 0, n_bytes=o.get('n_bytes'), written_head=o.get('head'),
+                written_segments=[[bytes.fromhex(h)[:120].decode('latin1'), n] for h, n in o.get('written_rle', [])[:6]],
+                read_ok=o.get('read_ok'), n_read=o.get('n_read'), read_err=o.get('read_err'))
